@@ -90,9 +90,11 @@ let router_case (toks : string list) : string =
     let b = Buffer.create 256 in
     Buffer.add_string b "T";
     let table = ref [] in
+    let notfound = ref false in
     let rec ops = function
       | "Q" :: qs -> qs
       | [] -> []
+      | "N" :: r -> notfound := true; ops r      (* a not-found handler is installed: it answers instead of the built-in 404 *)
       | op :: r ->
         let parts = String.split_on_char ':' (String.sub op 1 (String.length op - 1)) in
         (match op.[0], parts with
@@ -119,7 +121,7 @@ let router_case (toks : string list) : string =
            | M.NotAllowed ms ->
              let ms = List.sort compare (List.map (fun m -> method_str.(int_of_n m)) ms) in
              Buffer.add_string b (" 405(" ^ String.concat "," ms ^ ")")
-           | M.NotFound -> Buffer.add_string b " 404")
+           | M.NotFound -> Buffer.add_string b (if !notfound then " 404nf" else " 404"))
         | _ -> Buffer.add_string b " BADQ") qs;
     Buffer.contents b
   | _ -> "BADCASE"
